@@ -1,6 +1,12 @@
 package partio
 
-import "verif/harness/internal/fx"
+import (
+	"go/ast"
+	"go/token"
+	"strconv"
+
+	"verif/harness/internal/fx"
+)
 
 // PartIO: arithmetic width of the byte offset / size computations in the four streaming loops.
 func Extract() *fx.Group {
@@ -24,5 +30,151 @@ func Extract() *fx.Group {
 			}
 		}
 	}
+	dispatchFacts(g)
 	return g
+}
+
+// constInt resolves a package-level integer constant (or a literal) of file f; -1 when it cannot.
+func constInt(f *ast.File, e ast.Expr) int64 {
+	switch x := e.(type) {
+	case *ast.BasicLit:
+		if x.Kind == token.INT {
+			if v, err := strconv.ParseInt(x.Value, 0, 64); err == nil {
+				return v
+			}
+		}
+	case *ast.ParenExpr:
+		return constInt(f, x.X)
+	case *ast.CallExpr: // a conversion such as int(partitionEntriesCount)
+		if len(x.Args) == 1 {
+			return constInt(f, x.Args[0])
+		}
+	case *ast.Ident:
+		if f == nil {
+			return -1
+		}
+		for _, d := range f.Decls {
+			gd, ok := d.(*ast.GenDecl)
+			if !ok || gd.Tok != token.CONST {
+				continue
+			}
+			for _, sp := range gd.Specs {
+				vs := sp.(*ast.ValueSpec)
+				for i, n := range vs.Names {
+					if n.Name == x.Name && i < len(vs.Values) {
+						return constInt(f, vs.Values[i])
+					}
+				}
+			}
+		}
+	}
+	return -1
+}
+
+func hasBreak(b *ast.BlockStmt) bool {
+	found := false
+	ast.Inspect(b, func(n ast.Node) bool {
+		if br, ok := n.(*ast.BranchStmt); ok && br.Tok == token.BREAK {
+			found = true
+		}
+		return true
+	})
+	return found
+}
+
+// dispatchFacts pins the shapes Model/PartDisk.lean and Model/MbrTable.lean rely on:
+//   - Disk.GetPartition takes the FIRST partition whose GetIndex() equals the argument (the loop breaks on a match);
+//   - mbr.Read allocates mbrSize bytes and stamps each sector size on the table and on every partition exactly
+//     when the value handed in is > 0;
+//   - mbr.Table.Write refuses a table with more than partitionEntriesCount partitions before anything is written.
+func dispatchFacts(g *fx.Group) {
+	// Disk.GetPartition
+	df := fx.Parse("disk/disk.go")
+	first := false
+	if fd := fx.FindFunc(df, "Disk", "GetPartition"); fd != nil && fd.Body != nil {
+		ast.Inspect(fd.Body, func(n ast.Node) bool {
+			rs, ok := n.(*ast.RangeStmt)
+			if !ok {
+				return true
+			}
+			for _, st := range rs.Body.List {
+				is, ok := st.(*ast.IfStmt)
+				if !ok {
+					continue
+				}
+				be, ok := is.Cond.(*ast.BinaryExpr)
+				if !ok || be.Op != token.EQL {
+					continue
+				}
+				src := fx.Src(be)
+				if (src == "p.GetIndex() == partIndex" || src == "partIndex == p.GetIndex()") && hasBreak(is.Body) {
+					first = true
+				}
+			}
+			return true
+		})
+	} else {
+		g.Missing("getPartitionFirstMatch")
+	}
+	g.Bool("getPartitionFirstMatch", first)
+
+	// mbr.Read
+	tf := fx.Parse("partition/mbr/table.go")
+	var guards []string
+	bufLen := int64(-1)
+	if fd := fx.FindFunc(tf, "", "Read"); fd != nil && fd.Body != nil {
+		for _, st := range fd.Body.List {
+			switch x := st.(type) {
+			case *ast.AssignStmt:
+				if len(x.Rhs) == 1 {
+					if ce, ok := x.Rhs[0].(*ast.CallExpr); ok {
+						if id, ok := ce.Fun.(*ast.Ident); ok && id.Name == "make" && len(ce.Args) == 2 && bufLen < 0 {
+							bufLen = constInt(tf, ce.Args[1])
+						}
+					}
+				}
+			case *ast.IfStmt:
+				be, ok := x.Cond.(*ast.BinaryExpr)
+				if !ok || be.Op != token.GTR || fx.Src(be.Y) != "0" {
+					continue
+				}
+				// what the body assigns on the table and on the partitions
+				var tbl, part string
+				ast.Inspect(x.Body, func(n ast.Node) bool {
+					if as, ok := n.(*ast.AssignStmt); ok && len(as.Lhs) == 1 && len(as.Rhs) == 1 && fx.Src(as.Rhs[0]) == fx.Src(be.X) {
+						l := fx.Src(as.Lhs[0])
+						if len(l) > 6 && l[:6] == "table." {
+							tbl = l[6:]
+						} else if len(l) > 2 && l[:2] == "p." {
+							part = l[2:]
+						}
+					}
+					return true
+				})
+				guards = append(guards, fx.Src(be.X)+">0:"+tbl+":"+part)
+			}
+		}
+	} else {
+		g.Missing("mbrReadStamps")
+	}
+	g.Strs("mbrReadStamps", guards)
+	g.Nat("mbrReadBufLen", bufLen)
+
+	// mbr.Table.Write
+	maxParts := int64(-1)
+	refuseFirst := false
+	if fd := fx.FindFunc(tf, "Table", "Write"); fd != nil && fd.Body != nil && len(fd.Body.List) > 0 {
+		if is, ok := fd.Body.List[0].(*ast.IfStmt); ok {
+			if be, ok := is.Cond.(*ast.BinaryExpr); ok && be.Op == token.GTR && fx.Src(be.X) == "len(t.Partitions)" {
+				maxParts = constInt(tf, be.Y)
+				if len(is.Body.List) > 0 {
+					_, refuseFirst = is.Body.List[len(is.Body.List)-1].(*ast.ReturnStmt)
+				}
+			}
+		}
+	} else {
+		g.Missing("mbrWriteMaxParts")
+	}
+	g.Nat("mbrWriteMaxParts", maxParts)
+	g.Bool("mbrWriteRefusesFirst", refuseFirst)
 }
